@@ -213,6 +213,9 @@ type Result struct {
 	Conc     *ConcResult   `json:"conc,omitempty"`
 	Probes   []ProbeResult `json:"probes,omitempty"`
 	OptSigs  []string      `json:"opt_sigs,omitempty"`
+	// CPU time of the worker process (user + system, all threads) spent in the build and in the accessor calls, microseconds
+	BuildCPU int64 `json:"buildCPU,omitempty"`
+	OpsCPU   int64 `json:"opsCPU,omitempty"`
 	// WorkerErr: the worker could not even set the case up (harness problem, inconclusive).
 	WorkerErr string `json:"workerErr,omitempty"`
 	// Fatal is filled by the driver when the worker died during this job.
